@@ -171,7 +171,7 @@ parser! {
 
         pub rule index_ops() -> IndexOps
             = "-" r:reg16() { IndexOps::PreDecrement(r) }
-            / r:reg16() "+" e:expr() { IndexOps::PostIncrementE(r, e) }
+            / r:reg16() space() "+" space() e:expr() { IndexOps::PostIncrementE(r, e) }
             / r:reg16() "+" { IndexOps::PostIncrement(r) }
             / r:reg16() !char_ident() { IndexOps::None(r) }
 
